@@ -111,10 +111,14 @@ func (p *TMultiUDPTransport) Write(buff []byte) (int, error) {
 
 // Flush flushes the write buffer of the underlying transports
 func (p *TMultiUDPTransport) Flush() error {
+	// n.b. Every transport must be flushed even if an earlier one fails:
+	//      a transport that is skipped keeps the message in its buffer and
+	//      sends it glued to the next one.
+	var firstErr error
 	for _, trans := range p.transports {
-		if err := trans.Flush(); err != nil {
-			return err
+		if err := trans.Flush(); err != nil && firstErr == nil {
+			firstErr = err
 		}
 	}
-	return nil
+	return firstErr
 }
